@@ -361,7 +361,7 @@ theorem mergeFoldS_inv {acc : Mol} (rest : List (Option Mol)) (hacc : acc.Inv)
   | cons o t ih =>
     have hstep : (mergeS acc o).1.Inv := by
       cases o with
-      | none => exact selfMerge_inv hacc
+      | none => exact merge_inv hacc (copy_inv hacc)
       | some x => exact merge_inv hacc (hrest x List.mem_cons_self)
     unfold mergeFoldS
     cases hm : mergeS acc o with
@@ -375,12 +375,11 @@ theorem lt_of_getElem?_some {α : Type} {l : List α} {i : Nat} {x : α} (h : l[
   apply Classical.byContradiction; intro hlt
   rw [List.getElem?_eq_none (by omega)] at h; cases h
 
-theorem sstep_inv {st : State} (h : SInv st) (op : SOp)
-    (hsafe : ∀ op', op = .mol op' → op'.safe st.pool = true) : SInv (sstep st op).1 := by
+theorem sstep_inv {st : State} (h : SInv st) (op : SOp) : SInv (sstep st op).1 := by
   obtain ⟨hp, hs⟩ := h
   cases op with
   | mol op =>
-    refine ⟨step_inv hp op (hsafe op rfl), ?_⟩
+    refine ⟨step_inv hp op, ?_⟩
     intro l hl i hi
     exact Nat.lt_of_lt_of_le (hs l hl i hi) (step_length_le st.pool op)
   | newSys ff =>
@@ -521,22 +520,10 @@ theorem sstep_inv {st : State} (h : SInv st) (op : SOp)
                   omega
             · exact ⟨hp, hs⟩
 
-/-- a system-level history in which every molecule operation is safe where it is applied -/
-def SSafeRun (st : State) : List SOp → Bool
-  | [] => true
-  | o :: t => (match o with
-               | .mol op => op.safe st.pool
-               | _ => true) && SSafeRun (sstep st o).1 t
-
-theorem srun_inv {st : State} (h : SInv st) (ops : List SOp) (hs : SSafeRun st ops = true) : SInv (srun st ops) := by
+theorem srun_inv {st : State} (h : SInv st) (ops : List SOp) : SInv (srun st ops) := by
   induction ops generalizing st with
   | nil => exact h
-  | cons o t ih =>
-    simp only [SSafeRun, Bool.and_eq_true] at hs
-    apply ih (sstep_inv h o _) hs.2
-    intro op' e
-    subst e
-    exact hs.1
+  | cons o t ih => exact ih (sstep_inv h o)
 
 /-! ### frame and errors of the system layer -/
 
@@ -646,7 +633,7 @@ theorem addMol_noFF (st : State) (s i j : Nat) :
 
 /-- a failing system-level operation changes nothing, except `MergeAllMolecules`, which leaves
 the system list alone but has already merged the operands before the offending one into the
-first molecule, and the two molecule-level exceptions of `Op.failSafe` -/
+first molecule, and the molecule-level exception of `Op.failSafe` -/
 theorem sstep_err (st : State) (op : SOp) (hfs : ∀ op', op = .mol op' → op'.failSafe st.pool = true)
     (h : (sstep st op).2 ≠ .ok) :
     (sstep st op).1.systems = st.systems ∧ ((∀ s, op ≠ .mergeAll s) → (sstep st op).1 = st) := by
